@@ -13,6 +13,10 @@
 pub mod common;
 
 #[cfg(kani)]
+mod c01_read_total;
+#[cfg(kani)]
+mod c01_streams;
+#[cfg(kani)]
 mod c07_stack_win;
 
 /// Trivial harness used by `./check --setup` to warm the dependency build.
@@ -22,3 +26,31 @@ fn c00_q_smoke() {
     let x: u8 = kani::any();
     assert!(x as u32 + 1 > 0);
 }
+#[cfg(kani)]
+mod c18_support;
+#[cfg(kani)]
+mod c18_gen;
+#[cfg(kani)]
+mod c02_support;
+#[cfg(kani)]
+mod c02_gen;
+#[cfg(kani)]
+mod c06_support;
+#[cfg(kani)]
+mod c06_gen;
+#[cfg(kani)]
+mod c09_numeric;
+#[cfg(kani)]
+mod c17_paths;
+#[cfg(kani)]
+mod c11_symbolication;
+#[cfg(kani)]
+mod c14_exception;
+#[cfg(kani)]
+mod c19_bitflip;
+#[cfg(kani)]
+mod c08_rangemap;
+#[cfg(kani)]
+mod c04_frame_pointer;
+#[cfg(kani)]
+mod c02_records;
